@@ -100,7 +100,7 @@ typedef struct {
 	unsigned sect, opt;             /* name flags */
 	int maxdepth;
 	int huge;                       /* values > 65535 generated */
-	int longval, longname;
+	int val250, val255, longname;
 	size_t nodes, sections, options, depth;
 } gen;
 
@@ -147,7 +147,7 @@ static void gen_name(vf_rng *r, gen *g, tnode *t, unsigned flags, int allow_spac
 		/* empty */
 	}
 	else {
-		if (sel < 46) { n = (size_t) vf_range(r, 250, 260); g->longname++; }
+		if (sel >= 43 && sel < 45 && !g->longname) { n = (size_t) vf_range(r, 250, 260); g->longname++; }
 		else n = (size_t) vf_range(r, 1, 12);
 		for (i = 0; i < n; i++) {
 			int c = 'a' + (int) vf_below(r, 26);
@@ -176,8 +176,8 @@ static void gen_value(vf_rng *r, gen *g, tnode *t)
 
 	t->quote = (f->esc[0] && vf_chance(r, 1, 3)) ? f->esc[vf_below(r, (uint32_t) strlen(f->esc))] : 0;
 	if (sel < 60) n = 0;
-	else if (sel < 140) { n = (size_t) vf_range(r, 250, 260); g->longval++; }
-	else if (sel < 155 && !g->huge && vf_chance(r, vf_thorough ? 2 : 1, 2)) { n = (size_t) vf_range(r, 65530, 65540); g->huge++; }
+	else if (sel < 110) { n = (size_t) vf_range(r, 250, 260); if (n < 255) g->val250++; else g->val255++; }
+	else if (sel < 116 && !g->huge) { n = (size_t) vf_range(r, 65530, 65540); g->huge++; }
 	else n = (size_t) vf_range(r, 1, 70);
 	for (i = 0; i < n; i++) {
 		int c;
@@ -624,7 +624,9 @@ void vf_case(uint64_t idx, vf_rng *r)
 		ret = mpt_parse_node(&target, &ctx, f->str);
 		vf_log("mpt_parse_node = %d line=%zu getc=%llu", ret, ctx.src.line, (unsigned long long) in.calls);
 		if (ret < 0) {
-			const char *what = g.huge ? "rejected-with-value-over-65535" : g.longval ? "rejected-with-value-over-254" : g.longname ? "rejected-with-name-over-254" : "rejected";
+			const char *what = g.huge ? "rejected-with-value-over-65535" : (g.val250 && g.val255) ? "rejected-with-value-250..260"
+			                   : g.val250 ? "rejected-with-value-250..254" : g.val255 ? "rejected-with-value-255..260"
+			                   : g.longname ? "rejected-with-name-250..260" : "rejected";
 			vf_fail(mkkey(&c, what), "%s: mpt_parse_node returned %d at line %zu (parser state %x) after %zu of %zu bytes; text: %s",
 			        desc, ret, ctx.src.line, ctx.curr, in.pos, in.n, excerpt(&ro[mode].out));
 		}
@@ -644,7 +646,8 @@ void vf_case(uint64_t idx, vf_rng *r)
 	vf_count("decoration:trailing-comments", ro[Noisy].trailing);
 	vf_count("tree:nodes", g.nodes);
 	vf_count("tree:sections", g.sections);
-	if (g.longval) vf_count("tree:with-value-250..260", 1);
+	if (g.val250) vf_count("tree:with-value-250..254", 1);
+	if (g.val255) vf_count("tree:with-value-255..260", 1);
 	if (g.huge) vf_count("tree:with-value-65530..65540", 1);
 	if (g.longname) vf_count("tree:with-name-250..260", 1);
 	if (g.depth >= 3) vf_count("tree:depth>=3", 1);
